@@ -462,7 +462,7 @@ fn receiver_body(c: &mut Ctx, su: &Setup, thorough: bool) -> Result<(), Violatio
                     _ => c.tape.draw(total + 1),
                 };
                 let start = start.min(total);
-                let maxlen = (total - start).min(if thorough { 70_000 } else { 20_000 });
+                let maxlen = (total - start).min(if thorough { 65_000 } else { 20_000 }); // (an IP packet carries at most 65535 octets)
                 let len = match c.tape.draw(6) {
                     0 => 0,
                     1 => maxlen.min(1),
